@@ -393,7 +393,18 @@ mut('c13-bn-update-in-eval', ['C13', 'C20'], 'kernel updates the running mean wh
 mut('c13-bn-eval-uses-batch-stats', ['C13'], 'layer passes bn_training=True whenever tracking is on', [(LY, "            bn_training = (self.running_mean is None) and (self.running_var is None)", "            bn_training = self.track_running_stats")], rules=['C13.BN-CHOICE'])
 mut('c13-bn-biased-running-var', ['C13'], 'running variance updated with the biased variance', [(K, "unbiased_var = var * (n / (n - 1))", "unbiased_var = var")], rules=['C13.BN-UPDATE'])
 mut('c13-bn-momentum-swapped', ['C13'], 'moving average weights swapped', [(K, "running_mean = mean * momentum + running_mean * (1 - momentum)", "running_mean = mean * (1 - momentum) + running_mean * momentum")], rules=['C13.BN-UPDATE'])
-mut('c13-bn-cma-before-increment', ['C13'], 'cumulative average factor read before the counter is incremented', [(LY, "                self.num_batches_tracked += 1\n                if self.momentum is None:  # use cumulative moving average\n                    exponential_average_factor = 1.0 / float(self.num_batches_tracked)", "                if self.momentum is None:  # use cumulative moving average\n                    exponential_average_factor = 1.0 / float(self.num_batches_tracked + 1)\n                self.num_batches_tracked += 1")], rules=['C13.BN-ONCE'])
+mut('c13-bn-cma-before-increment', ['C13'], 'cumulative average factor read before the counter is incremented (first batch weighted 1, second 1, third 1/2 ...)',
+    [(LY, """                self.num_batches_tracked += 1
+                if self.momentum is None:  # use cumulative moving average
+                    exponential_average_factor = 1.0 / float(self.num_batches_tracked)
+                else:  # use exponential moving average
+                    exponential_average_factor = self.momentum
+""", """                if self.momentum is None:  # use cumulative moving average
+                    exponential_average_factor = 1.0 / float(max(self.num_batches_tracked, 1))
+                else:  # use exponential moving average
+                    exponential_average_factor = self.momentum
+                self.num_batches_tracked += 1
+""")], rules=['C13.BN-ONCE'])
 mut('c13-bn-writeback-swapped', ['C13'], 'wrapper writes the new running variance into running_mean', [(NF, "    if new_running_mean is not None: running_mean.data = new_running_mean\n    if new_running_var is not None: running_var.data = new_running_var", "    if new_running_mean is not None: running_mean.data = new_running_var\n    if new_running_var is not None: running_var.data = new_running_mean")], rules=['C13.BN-UPDATE'])
 mut('c13-twin-dropout-gt', ['C13'], 'mask written as np.where(draw > p, 1, 0)', [(LY, "np.where(random_data <= self.p, 0, 1)", "np.where(random_data > self.p, 1, 0)")], expect='silent')
 mut('c13-twin-bn-update-reassoc', ['C13'], 'running mean update re-associated', [(K, "running_mean = mean * momentum + running_mean * (1 - momentum)", "running_mean = running_mean + momentum * (mean - running_mean)")], expect='silent')
